@@ -1,6 +1,7 @@
 (** C12 - A slow subscriber never blocks the publisher or corrupts its own stream.  Property theorems only.
     For EVERY sequence of transport answers (accept k bytes, Ok(0), Pending, error). *)
-From ZV Require Import Base.Bytes Base.Res Model.Codec Model.TrySend Proofs.TrySendProofs.
+From ZV Require Import Base.Bytes Base.Res Model.Codec Model.TrySend Proofs.TrySendProofs Model.PubFan Proofs.PubFanProofs.
+From ZV Require Model.World.
 
 Theorem C12_gen_hwm : Gen.hwm = 131072.
 Proof. exact gen_hwm. Qed.
@@ -31,3 +32,95 @@ Theorem C12_accepting_misses_none : forall s enc, k_tr s = accepting -> k_buf s 
   exists s', try_send s enc = (TsOk, s') /\ k_buf s' = [] /\ k_tr s' = accepting /\ k_written s' = k_written s ++ enc.
 Proof. exact accepting_misses_none. Qed.
 Print Assumptions C12_accepting_misses_none.
+
+(** * The send loop of PUB / XPUB over one such sink per subscriber (Model/PubFan.v)
+
+    [publish] is a total function of the subscriber table: it has no outcome in which it waits for a connection.
+    In the run of the whole table every subscriber goes through exactly its own solo run ... *)
+Theorem C12_fan_isolation : forall ops us k u, get k us = Some u ->
+  get k (snd (frun us ops)) = Some (solo k u ops).
+Proof. exact fan_isolation. Qed.
+Print Assumptions C12_fan_isolation.
+
+(** ... so delivery to a subscriber is unaffected by which other subscribers exist and by whatever their
+    connections do (stall, accept k bytes, resume, break) *)
+Theorem C12_fan_others_unaffected : forall ops1 ops2 us1 us2 k u,
+  get k us1 = Some u -> get k us2 = Some u ->
+  filter (concerns k) ops1 = filter (concerns k) ops2 ->
+  get k (snd (frun us1 ops1)) = get k (snd (frun us2 ops2)).
+Proof. exact fan_others_unaffected. Qed.
+Print Assumptions C12_fan_others_unaffected.
+
+(** what a wire tap of subscriber k shows at any point of any run is determined by k's solo run *)
+Theorem C12_fan_wire_is_solo : forall pre us k u, get k us = Some u ->
+  fst (fstep (snd (frun us pre)) (FWire k)) =
+  [skipn (u_seen (solo k u pre)) (k_written (u_sink (solo k u pre)))].
+Proof. exact fan_wire_is_solo. Qed.
+Print Assumptions C12_fan_wire_is_solo.
+
+(** what reaches a subscriber, or is still buffered for it, is a concatenation of whole encoded messages forming an
+    order-preserving subsequence of the messages offered to it (those that matched one of its subscriptions when
+    they were published) *)
+Theorem C12_fan_stream_subsequence : forall ops k u, exists acc,
+  subseq acc (offered k u ops) /\
+  stream (solo k u ops) = stream u ++ concat (map encode_frames acc).
+Proof. exact fan_stream_subsequence. Qed.
+Print Assumptions C12_fan_stream_subsequence.
+
+Theorem C12_fan_offered_sub_matching : forall ops k u, (forall m, ~ In (FSub k m) ops) ->
+  subseq (offered k u ops) (matching (u_subs u) (published ops)).
+Proof. exact offered_sub_matching. Qed.
+Print Assumptions C12_fan_offered_sub_matching.
+
+(** bytes already on a connection are never taken back *)
+Theorem C12_fan_written_grows : forall ops k u, exists ext,
+  k_written (u_sink (solo k u ops)) = k_written (u_sink u) ++ ext.
+Proof. exact fan_written_grows. Qed.
+Print Assumptions C12_fan_written_grows.
+
+Theorem C12_fan_bounded : forall ops k u M,
+  (forall m, In (FPublish m) ops -> lenN (encode_frames m) <= M) ->
+  lenN (k_buf (u_sink u)) < Gen.hwm + M ->
+  lenN (k_buf (u_sink (solo k u ops))) < Gen.hwm + M.
+Proof. exact fan_bounded. Qed.
+Print Assumptions C12_fan_bounded.
+
+(** a subscriber whose connection accepts every write misses none of the matching messages *)
+Theorem C12_fan_accepting_misses_none : forall ops k u,
+  u_live u = true -> k_tr (u_sink u) = accepting -> k_buf (u_sink u) = [] ->
+  (forall o, In o ops -> match o with FSub j _ | FMode j _ | FPlan j _ => j <> k | _ => True end) ->
+  (forall m, In (FPublish m) ops -> lenN (encode_frames m) < 2 ^ 63) ->
+  let u' := solo k u ops in
+  k_written (u_sink u') = k_written (u_sink u) ++ concat (map encode_frames (matching (u_subs u) (published ops))) /\
+  k_buf (u_sink u') = [] /\ u_live u' = true.
+Proof. exact fan_accepting_misses_none. Qed.
+Print Assumptions C12_fan_accepting_misses_none.
+
+(** a refused offer (full buffer, write error) leaves the subscriber's stream untouched: whole messages are dropped *)
+Theorem C12_fan_refused_keeps_stream : forall u m s r, m <> [] ->
+  try_send (u_sink u) (encode_frames m) = (r, s) -> r <> TsOk ->
+  stream (offer u m) = stream u.
+Proof. exact offer_refused_keeps_stream. Qed.
+Print Assumptions C12_fan_refused_keeps_stream.
+
+(** a subscriber removed after a broken pipe is sent nothing more *)
+Theorem C12_fan_dead_gets_nothing : forall ops k u, u_live u = false ->
+  stream (solo k u ops) = stream u /\ u_live (solo k u ops) = false.
+Proof. exact fan_dead_gets_nothing. Qed.
+Print Assumptions C12_fan_dead_gets_nothing.
+
+(** over connections that accept every write the fan-out coincides with the publish of the socket model (World) *)
+Theorem C12_fan_refines_world_publish : forall (w : World.world) us m k c u,
+  NoDup (World.w_peers w) -> In k (World.w_peers w) ->
+  World.get_conn k (World.w_conns w) = Some c -> get k us = Some u ->
+  u_live u = true -> u_subs u = World.c_subs c ->
+  k_tr (u_sink u) = accepting -> k_buf (u_sink u) = [] -> lenN (encode_frames m) < 2 ^ 63 ->
+  exists c' u' delta,
+    World.get_conn k (World.w_conns (World.publish w m)) = Some c' /\
+    get k (publish us m) = Some u' /\
+    World.c_wire c' = World.c_wire c ++ delta /\
+    k_written (u_sink u') = k_written (u_sink u) ++ delta /\
+    k_buf (u_sink u') = [] /\ k_tr (u_sink u') = accepting /\ u_live u' = true /\
+    World.c_subs c' = World.c_subs c /\ u_subs u' = u_subs u.
+Proof. exact fan_refines_world_publish. Qed.
+Print Assumptions C12_fan_refines_world_publish.
